@@ -251,7 +251,7 @@ def _origin_also_derives_option(case):
     return False
 
 
-K35_CLAUSES = ('resolved-instance-differs', 'resolve-fails-on-complete-mapping', 'rejected-by-model-but-resolved', 'sup-initialisation-raises:KeyError', 'resolve-raises:KeyError')
+K35_CLAUSES = ('resolved-instance-differs', 'resolve-fails-on-complete-mapping', 'rejected-by-model-but-resolved', 'sup-initialisation-raises:KeyError', 'resolve-raises:KeyError', 'resolve-raises:NetworkXError')
 
 
 def match_known(case, fail, known):
